@@ -13,7 +13,7 @@
 //
 // (2) Facts: syntactic facts the hand-written models assume (lock discipline, which call sites
 // consult config.QuorumSize(), order of checks ...) are extracted into facts.json and compared
-// by the orchestrator with expectations kept in /verif/gen/expected_facts.json.
+// by the orchestrator with the expectations kept per property in /verif/vlib/prop_Cxx.py (`facts=`).
 package main
 
 import (
